@@ -248,8 +248,11 @@ func (c Cap) RectBound() Rect {
 		sinC := math.Cos(latitude(c.center).Radians())
 		if sinA <= sinC {
 			angleA := math.Asin(sinA / sinC)
-			lng.Lo = math.Remainder(longitude(c.center).Radians()-angleA, math.Pi*2)
-			lng.Hi = math.Remainder(longitude(c.center).Radians()+angleA, math.Pi*2)
+			// IntervalFromEndpoints maps an endpoint of -π to π, as a valid
+			// interval requires.
+			lng = s1.IntervalFromEndpoints(
+				math.Remainder(longitude(c.center).Radians()-angleA, math.Pi*2),
+				math.Remainder(longitude(c.center).Radians()+angleA, math.Pi*2))
 		}
 	}
 	return Rect{lat, lng}
